@@ -80,11 +80,20 @@ def body(c):
     record_part(c, pid, q)
     if pid == "C05":
         # the jet library: every Core jet with flat source and target on patterned and random inputs, judged by JetLib.tla
-        jpath = os.path.join(c.work, "jets.ndjson")
-        c.vh(["c05", "jets", 12 if q else 300, jpath], timeout=3000)
+        # (the hashing jets, the secp256k1 jets on meaningful points, and signature verification have inputs of their own)
         def describe_jet(ev):
             return ("c05:jet-function", "jet %s on input %s returned %s, JetLib.tla specifies something else" % (ev["name"], "".join(map(str, ev["in"]))[:140], str(ev["out"])[:140]))
-        validate_trace(c, "Trace_JetLib", "Trace_JetLib.cfg", jpath, describe_jet, heap="6g", timeout=3000)
+        jpath = os.path.join(c.work, "jets.ndjson")
+        # the limb arithmetic of Secp.tla against arithmetic facts (inverses, roots, beta^3 = lambda^3 = 1, wrap-around)
+        c.tlc_design("MC_Secp", "MC_Secp.cfg", workers=1, heap="2g", timeout=900)
+        parts = []
+        for sub, n in (("jets", [12 if q else 300]), ("hashjets", [3 if q else 40]), ("ecjets", [3 if q else 24]), ("sigjets", [0 if q else 6]),
+                       ("eljets", [3 if q else 30, 0 if q else 4])):
+            pp = os.path.join(c.work, "jets-%s.ndjson" % sub)
+            c.vh(["c05", sub] + n + [pp], timeout=3000)
+            parts.append(open(pp).read())
+        open(jpath, "w").write("".join(parts))
+        validate_trace_sharded(c, "Trace_JetLib", "Trace_JetLib.cfg", jpath, describe_jet, 12, heap="3g", timeout=6000)
         names = set(json.loads(l)["name"] for l in open(jpath))
         c.extra["core_jets_run"] = len(names)
     c.assumptions += ["the harness pins every node's arrow to the spec's typing through Context::unify (public API)",
@@ -93,7 +102,7 @@ def body(c):
         "TLC: every reachable DAG up to 3 (4) nodes over all executable combinators, word constants and three jets, principal "
         "typing instantiated by K schemes, all inputs, witness/word values, memory fill 0/1, every machine step a state "
         "(frame/bound/semantic invariants); each finished run replayed on BitMachine (twice: zeroed and 0xFF-filled memory); "
-        "plus recorded runs of generated programs validated by TLC; 305 Core jets (arithmetic, logic, comparison, shifts, division, slicing, padding) are specified as "
+        "plus recorded runs of generated programs validated by TLC; 364 of the 368 Core jets (arithmetic, logic, comparison, shifts, division, slicing, hashing and its contexts, lock parsing, secp256k1 field / scalar / point arithmetic, BIP-340 verification) are specified in JetLib.tla / Sha256.tla / Secp.tla; (arithmetic, logic, comparison, shifts, division, slicing, padding) are specified as "
         "bit-string functions (JetLib.tla) and judged on every recorded visit and on patterned and random inputs of their own"))
 
 def record_part(c, pid, q):
